@@ -156,7 +156,7 @@ PROPS["C11"] = {
 PROPS["C12"] = {
     "tierb": {"legs": ["quic/mem"], "runs": {"quick": 48, "thorough": 700}, "budget": {"quick": 150, "thorough": 700}},
     "pkg": "stk", "env": {"SIM_PROP": "C12"}, "legs": [x for x in STACKS if x != "sim"],
-    "runs": {"quick": 2600, "thorough": 150000}, "budget": {"quick": 240, "thorough": 700},
+    "runs": {"quick": 8000, "thorough": 300000}, "budget": {"quick": 240, "thorough": 700},
     "rule": "one run = one stack of the catalogue (26 stacks) on 2-4 nodes: 0-3 tasks blocked in Receive and 0-3 in ServeAsk of a victim node with contexts that never expire, optional tells/asks in flight towards it, 1-2 closer tasks (sometimes closing twice, sometimes concurrently) at a seeded step, then new Receive/ServeAsk calls on the closed swarm; finally every node is closed; network faults and all task interleavings from the seed; "
             "non-trivial = at least one call was blocked when Close was called and several tasks were runnable at once; distinct = distinct scheduler decision traces",
     "components": TIER_A,
@@ -234,7 +234,7 @@ PROPS["C05"] = {
 PROPS["C04"] = {
     "tierb": {"legs": ["quic/mem"], "runs": {"quick": 48, "thorough": 700}, "budget": {"quick": 150, "thorough": 700}},
     "pkg": "stk", "env": {"SIM_PROP": "C04"},
-    "legs": ["p2pke/sim", "p2pke/mem", "frag/p2pke/sim", "mbapp/p2pke/sim", "mux-string/frag/p2pke/sim", "wl/mbapp/p2pke/sim", "p2pke/mapudp/sim", "p2pke/sim"],
+    "legs": ["p2pke/sim", "p2pke/mem", "frag/p2pke/sim", "mbapp/p2pke/sim", "mux-string/frag/p2pke/sim", "wl/mbapp/p2pke/sim", "p2pke/mapudp/sim", "p2pke/sim", "wl/mem", "wl/mbapp/mem"],
     "runs": {"quick": 1600, "thorough": 100000}, "budget": {"quick": 240, "thorough": 700},
     "rule": "one run = one P2PKE-secured stack (bare, under fragmenting / message-box / multiplexer / whitelist layers, over the simulated network, the in-memory swarm and UDP-form addresses) on 3-4 nodes with keys from the seed; a random whitelist relation between identities; tells and asks to the right address and to wrong-identity addresses (right transport address, another node's or nobody's peer id); a packet-level adversary that replays, cross-feeds, reflects, bit-flips and re-injects with a spoofed transport source every datagram it has seen; network drop/duplicate/reorder/corrupt and all interleavings; "
             "non-trivial = a key lookup inside a handler was checked and a fault fired; distinct = distinct scheduler decision traces",
